@@ -34,7 +34,7 @@ func TestC13Reopen(t *testing.T) {
 	defer vt.Watch("TestC13Reopen", 120*time.Second)()
 	rec := vt.For("C13")
 	rec.Rule("reopen: the C12 operation machine (all store methods, virtual time) on an ON-DISK badger store with a close+reopen rule at generated points; after every reopen and at the end the full observation (all getters, Stats, nonce decisions through later submissions) equals the contract model; non-trivial = >=1 reopen after >=3 mutations; distinct by op sequence")
-	rapid.Check(t, func(rt *rapid.T) {
+	check(t, func(rt *rapid.T) {
 		rapid.SyncTest(rt, func(rt *rapid.T) {
 			dir := tempDir("c13-reopen-")
 			defer removeAll(dir)
@@ -153,7 +153,7 @@ func TestC13Crash(t *testing.T) {
 	if err != nil {
 		t.Fatal(err)
 	}
-	rapid.Check(t, func(rt *rapid.T) {
+	check(t, func(rt *rapid.T) {
 		dir := tempDir("c13-crash-")
 		defer removeAll(dir)
 		n := rapid.IntRange(3, 25).Draw(rt, "nOps")
@@ -307,7 +307,7 @@ func TestC13Crash(t *testing.T) {
 func TestC13ConcurrentReaders(t *testing.T) {
 	rec := vt.For("C13")
 	rec.Rule("concurrent readers: a writer links k nodes with trial credit to wallets (each link migrates a trial balance: multi-key transaction) and moves credit, while reader goroutines take Stats() (one read transaction) in a loop on an on-disk badger store; every Stats must show the constant ledger total and a trial count between the adjacent model states, never a half-migrated state; non-trivial = every case with >=2 links; distinct by amounts + k")
-	rapid.Check(t, func(rt *rapid.T) {
+	check(t, func(rt *rapid.T) {
 		dir := tempDir("c13-readers-")
 		defer removeAll(dir)
 		st := mustOpenBadger(rt, dir)
@@ -413,7 +413,7 @@ func TestC13ConcurrentWriters(t *testing.T) {
 	rec := vt.For("C13")
 	rec.Rule("concurrent writers: 2-16 goroutines each apply a drawn list of credit movements (AddNodeBalance / AddAccountBalance, amounts up to 2^128, both signs) to 1-3 hot keys of an on-disk badger store at the same time (optimistic transactions conflict and are re-run); an operation that returned nil is acknowledged; oracle: every balance equals the sum of the acknowledged amounts (additions commute, so the sum is schedule-independent), immediately and after close + reopen; non-trivial = >=2 writers on one key; distinct by writers + op lists")
 	defer vt.Watch("TestC13ConcurrentWriters", 120*time.Second)()
-	rapid.Check(t, func(rt *rapid.T) {
+	check(t, func(rt *rapid.T) {
 		dir := tempDir("c13-writers-")
 		defer removeAll(dir)
 		st := mustOpenBadger(rt, dir)
@@ -610,7 +610,7 @@ func migNonceID(i int) string {
 func TestC13Migration(t *testing.T) {
 	rec := vt.For("C13")
 	rec.Rule("migrations: a database is populated through the real driver with generated numbers (0..400, crossing the iterator prefetch window of 100) of nodes, peer sets, trial balances, wallet balances, links and nonces, its format version is rewritten to 0, 1 or left current with the raw badger API, then the driver opens it (twice); oracle: version is current afterwards, every key outside vip:nonce:* and vip:version is byte-identical before/after the first and the second open, and the store then works (a fresh nonce is accepted); non-trivial = an older version with >=1 nonce and >=1 other key; distinct by (version, counts)")
-	rapid.Check(t, func(rt *rapid.T) {
+	check(t, func(rt *rapid.T) {
 		dir := tempDir("c13-mig-")
 		defer removeAll(dir)
 		gen := func(label string) int {
@@ -730,7 +730,7 @@ func TestC13MigrationCrash(t *testing.T) {
 	if err != nil {
 		t.Fatal(err)
 	}
-	rapid.Check(t, func(rt *rapid.T) {
+	check(t, func(rt *rapid.T) {
 		dir := tempDir("c13-migcrash-")
 		defer removeAll(dir)
 		db := filepath.Join(dir, "db")
